@@ -250,12 +250,17 @@ def run_shard(desc):
     if len(fine) >= 3:
         uc = ucm.unitcell(cell, sym)
         case2 = {"lattice": li, "cell": cell, "sym": sym, "ngrains": ng, "data": "shared_unitcell:coarse_then_fine_ring_table", "seed": seed_of()}
+        # the ring NUMBERS of the fine table are used in both searches (in the coarse table the same numbers mean other, merged rings)
+        ucf = ucm.unitcell(cell, sym)
+        ucf.makerings(dsmax + 0.005, 0.005)
+        rids_fine = sorted(set(int(np.argmin(np.abs(np.array(ucf.ringds) - d))) for d in two))
         for ds_tol, minp in ((0.05, nref + 1), (0.005, int(0.5 * nref))):
             ind = indexing.indexer(unitcell=uc, gv=allgv.copy(), cosine_tol=0.002, minpks=minp, hkl_tol=0.02, ds_tol=ds_tol, wavelength=0.3, uniqueness=0.5,
                                    max_grains=100)
             ind.assigntorings()
-            rids = sorted(set(int(np.argmin(np.abs(np.array(uc.ringds) - d))) for d in two))
-            ind.score_all_pairs(rings_to_use=rids + ([rids[0] + 1] if len(rids) == 1 and rids[0] + 1 < len(uc.ringds) else []))
+            rids = [r_ for r_ in rids_fine if r_ < len(uc.ringds)]
+            if rids:
+                ind.score_all_pairs(rings_to_use=rids)
         judge([np.array(u) for u in ind.ubis], "shared-unitcell[coarse then fine ring table]", case2)
         sh.evaluations += 1
         sh.nontrivial += 1
